@@ -10,6 +10,7 @@ import (
 	"flag"
 	"fmt"
 	"os"
+	"os/exec"
 	"sort"
 	"strings"
 )
@@ -51,19 +52,19 @@ func Pick[T any](r *Rng, xs []T) T { return xs[r.Intn(len(xs))] }
 
 // Run carries the command-line contract shared by all harness binaries.
 type Run struct {
-	Seed    uint64
-	Tier    string
-	Replay  string
-	out     *bufio.Writer
-	outF    *os.File
-	stats   string
-	Evals   int
+	Seed     uint64
+	Tier     string
+	Replay   string
+	out      *bufio.Writer
+	outF     *os.File
+	stats    string
+	Evals    int
 	distinct map[string]struct{}
-	Dist    map[string]int
-	Samples []string
-	Rule    string
-	Extra   map[string]any
-	nlines  int
+	Dist     map[string]int
+	Samples  []string
+	Rule     string
+	Extra    map[string]any
+	nlines   int
 }
 
 func Start() *Run {
@@ -101,6 +102,9 @@ func (r *Run) Emit(lhs string, rhs string) {
 		r.Samples = append(r.Samples, lhs+" => "+rhs)
 	}
 }
+
+// Flush pushes buffered protocol lines to the output file (used before risky operations).
+func (r *Run) Flush() { r.out.Flush() }
 
 // Raw writes a line verbatim (comments `# …`, `reset`).
 func (r *Run) Raw(line string) { r.out.WriteString(line); r.out.WriteByte('\n') }
@@ -196,3 +200,88 @@ func Join(xs []string, sep string) string {
 }
 
 func F(format string, a ...any) string { return fmt.Sprintf(format, a...) }
+
+// Begin marks an operation whose execution may kill the whole process (fatal stack overflow,
+// runtime deadlock): the marker is flushed first so that Guarded can name the operation.
+func (r *Run) Begin(lhs string) {
+	r.out.WriteString("# begin " + lhs + "\n")
+	r.out.Flush()
+}
+
+// Guarded runs body in a child process (same binary, same arguments). If the child dies, the
+// operation announced by the last `# begin` marker is reported as `<op> => crash`, so that the
+// driver can judge it; the parent then exits 0 (the verdict belongs to the driver).
+func Guarded(body func(r *Run)) {
+	if os.Getenv("VERIF_CHILD") == "1" {
+		r := Start()
+		body(r)
+		r.Finish()
+		return
+	}
+	out, stats := "", ""
+	for i, a := range os.Args {
+		if (a == "-out" || a == "--out") && i+1 < len(os.Args) {
+			out = os.Args[i+1]
+		}
+		if (a == "-stats" || a == "--stats") && i+1 < len(os.Args) {
+			stats = os.Args[i+1]
+		}
+	}
+	cmd := exec.Command(os.Args[0], os.Args[1:]...)
+	cmd.Env = append(os.Environ(), "VERIF_CHILD=1")
+	cmd.Stdout = os.Stdout
+	var errb strings.Builder
+	cmd.Stderr = &errb
+	err := cmd.Run()
+	if err == nil {
+		return
+	}
+	if out == "" {
+		fmt.Fprintln(os.Stderr, "child failed:", err)
+		os.Exit(1)
+	}
+	b, _ := os.ReadFile(out)
+	lines := strings.Split(strings.TrimRight(string(b), "\n"), "\n")
+	// drop a possibly half-written last line
+	if len(b) > 0 && b[len(b)-1] != '\n' && len(lines) > 0 {
+		lines = lines[:len(lines)-1]
+	}
+	last := ""
+	for i := len(lines) - 1; i >= 0; i-- {
+		if strings.HasPrefix(lines[i], "# begin ") {
+			// only if no completed line for it follows
+			done := false
+			for _, l := range lines[i+1:] {
+				if !strings.HasPrefix(l, "#") {
+					done = true
+				}
+			}
+			if !done {
+				last = strings.TrimPrefix(lines[i], "# begin ")
+			}
+			break
+		}
+	}
+	msg := errb.String()
+	kind := "crash"
+	if strings.Contains(msg, "stack overflow") || strings.Contains(msg, "goroutine stack exceeds") {
+		kind = "crash:stack-overflow"
+	}
+	if last == "" {
+		fmt.Fprintln(os.Stderr, "child failed outside a guarded operation:", err)
+		if len(msg) > 2000 {
+			msg = msg[:2000]
+		}
+		fmt.Fprintln(os.Stderr, msg)
+		os.Exit(1)
+	}
+	lines = append(lines, last+" => "+kind)
+	os.WriteFile(out, []byte(strings.Join(lines, "\n")+"\n"), 0o644)
+	if stats != "" {
+		if _, e := os.Stat(stats); e != nil {
+			m := map[string]any{"evaluations": len(lines), "distinct_nontrivial": 0, "rule": "child process died; partial output", "samples": []string{last + " => " + kind}}
+			jb, _ := json.Marshal(m)
+			os.WriteFile(stats, jb, 0o644)
+		}
+	}
+}
